@@ -160,6 +160,7 @@ class C17(Property):
     nops = W.span("nops", 0, 12)
     burst = W.chance("burst", 1, 3)
     gchunk = W.pick("gchunk", [None, None, 2, 4])
+    gch = [gchunk]      # the global default chunk size at this point of the script
 
     def new_player():
       kind = W.weighted("akind", [(10, "list"), (4, "gen"), (4, "periodic"),
@@ -182,7 +183,7 @@ class C17(Property):
         # hundreds of chunks: whatever builds up per chunk in the player
         ln = (150 + W.choose("longchunks", 300)) * per + W.choose("rem", per)
       spec = {"kind": kind, "len": ln, "chunk_size": cs, "channels": ch,
-              "dfmt": dfmt, "use_global": bool(gchunk) and
+              "dfmt": dfmt, "use_global": bool(gch[0]) and
               bool(W.choose("useg", 2)),
               # the deprecated spelling of the channels argument
               "nch_kw": ch > 1 and W.chance("nchannels-kw", 1, 4),
@@ -202,7 +203,7 @@ class C17(Property):
                                            "hub2", "sequence", "deque",
                                            "array", "userlist", "dictkeys"])
       if spec["use_global"]:
-        spec["chunk_size"] = gchunk
+        spec["chunk_size"] = gch[0]
       specs.append(spec)
       state[len(specs) - 1] = {"paused": False, "stopped": False,
                                "endless": kind in ("periodic", "rec")}
@@ -228,8 +229,15 @@ class C17(Property):
         # RecStream.stop() on an input stream that a player loops to the
         # output: the player then runs out of audio and ends by itself
         opts += [(2, "loop_stop")]
+      if gchunk and W.chance("regchunk", 1, 6):
+        # the global default chunk size is changed while players that were
+        # opened under the old default are still alive
+        opts += [(2, "gchunk")]
       op = W.weighted("op", opts)
-      if op == "play":
+      if op == "gchunk":
+        gch[0] = W.pick("newgchunk", [1, 2, 3, 4, 8])
+        script.append(["gchunk", gch[0]])
+      elif op == "play":
         new_player()
       elif op == "play_bad":
         script.append(["play_bad", W.pick("bad", ["dfmt", "kw"])])
@@ -239,7 +247,8 @@ class C17(Property):
         script.append(["record", {"chunk_size": W.pick("rcs", [1, 2, 4, None]),
                                   "dfmt": W.pick("rfmt", ["f", "h", "i"]),
                                   "rate": W.pick("rrate", [None, 8000]),
-                                  "dev": W.pick("rdev", [None, None, 0, 4])}])
+                                  "dev": W.pick("rdev", [None, None, 0, 4]),
+                                  "gdef": gch[0]}])
       elif op == "rec_take":
         script.append(["rec_take", W.span("rn", 1, 6), W.choose("which", nrec)])
       elif op == "rec_stop":
@@ -598,6 +607,10 @@ class C17(Property):
         burst += 1
         if burst == 3:
           res.counters["fault.control-burst"] += 1
+        if name == "gchunk":
+          type(lio.chunks).size = op[1]
+          res.counters["probe.default-chunk-size-changed-during-playback"] += 1
+          continue
         if name == "play_bad":
           # a play() call that is refused: unknown sample format or a value
           # the backend rejects.  It must raise and change nothing else.
@@ -1009,7 +1022,8 @@ class C17(Property):
     # --- recording streams: what the input device was opened with
     for rspec, rst, rec in ctl.get("rec_specs", []):
       okw = rst.kwargs
-      cs = rspec.get("chunk_size") or (workload.get("gchunk") or 2048)
+      cs = rspec.get("chunk_size") or rspec.get("gdef") or \
+        (workload.get("gchunk") or 2048)
       want_dev = rspec["dev"] if rspec.get("dev") is not None else \
         (2 if workload.get("api") else None)          # fake JACK's input
       fmtcode = {"f": 1, "i": 2, "h": 8, "b": 16, "B": 32}[rspec["dfmt"]]
